@@ -1633,9 +1633,10 @@ func registerLibModels() {
 			special := Or(FPIsNaN(x), FPIsNaN(y), FPIsInf(x), FPEq(y, FPConst(0)))
 			yInf := And(Not(special), FPIsInf(y))
 			normal := And(Not(special), Not(FPIsInf(y)))
-			c.assume(Or(Not(special), FPIsNaN(m)))
-			c.assume(Or(Not(yInf), And(Not(FPIsNaN(m)), Eq(m, x))))
-			c.assume(Or(Not(normal), And(Not(FPIsNaN(m)), Not(FPIsInf(m)), FPLt(FPAbs(m), FPAbs(y)), FPLe(FPAbs(m), FPAbs(x)), Eq(FPIsNeg(m), FPIsNeg(x)))))
+			c.assume(And(
+				Or(Not(special), FPIsNaN(m)),
+				Or(Not(yInf), And(Not(FPIsNaN(m)), Eq(m, x))),
+				Or(Not(normal), And(Not(FPIsNaN(m)), Not(FPIsInf(m)), FPLt(FPAbs(m), FPAbs(y)), FPLe(FPAbs(m), FPAbs(x)), Eq(FPIsNeg(m), FPIsNeg(x))))))
 			return m
 		}
 		if c.Ex.Havoc["math.Mod"] {
@@ -1712,7 +1713,7 @@ func registerLibModels() {
 				diff := FPAbs(FPSub(r, f))
 				bound := FPAdd(FPConst(0.51*u), FPMul(af, FPConst(math.Ldexp(1, -52))))
 				integral := FPEq(FPRound("RTZ", f), f)
-				c.assume(Or(Not(finite), And(
+				c.assume(And(Or(Not(finite), And(
 					Not(FPIsNaN(r)), Not(FPIsInf(r)),
 					Eq(FPIsNeg(r), FPIsNeg(f)),
 					Or(Not(FPLt(af, FPConst(0.4*u))), zero),
@@ -1720,9 +1721,10 @@ func registerLibModels() {
 					FPLe(diff, bound),
 					Or(Not(integral), FPEq(r, f)),
 					FPLe(ar, FPAdd(af, FPConst(u))),
-				)))
-				// NaN and infinities print as text that parses back to themselves
-				c.assume(Or(finite, Or(And(FPIsNaN(f), FPIsNaN(r)), Eq(r, f))))
+				)),
+					// NaN and infinities print as text that parses back to themselves
+					Or(finite, Or(And(FPIsNaN(f), FPIsNaN(r)), Eq(r, f)))))
+
 			}
 			return TupleVal{r, Iface{}}
 		}
